@@ -109,7 +109,7 @@ var c12EncLens = []int{3, 10, 100, 997, 998, 999, 1000, 1001, 1002, 1003, 1500, 
 
 func genC12(t *rapid.T) C12Sc {
 	var sc C12Sc
-	n := rapid.IntRange(1, 14).Draw(t, "nops")
+	n := rapid.IntRange(1, deep(t, 14)).Draw(t, "nops")
 	for i := 0; i < n; i++ {
 		var op C12Op
 		if rapid.IntRange(0, 9).Draw(t, "op.kind") < 6 {
